@@ -29,6 +29,7 @@ SIG_UNIQUE = "HRef.is_unique.true-for-port-or-cable-reference-into-shared-defini
 SIG_NOREF = "get_hinstances.instance-without-reference.no-occurrences-returned"
 SIG_RMDEF = "get_all_hrefs_of_instances.definition-removed-from-library.occurrences-not-returned"
 SIG_NOWIRE = "get_hcables.cable-without-wires.occurrences-not-returned"
+SIG_MOVED = "hier-tracing.outer-wire-of-moved-child-or-port-sits-in-its-old-definition.returns-invalid-reference"
 SIG_DANGLING = "hier-tracing.pin-of-removed-child-or-port-left-on-wire.returns-invalid-reference"
 
 
@@ -919,6 +920,35 @@ def check_c11(res, sess, recipe, rng, tier_scale, edits=None, tag="gen"):
     res.dist("c11.elab-insts<=%d" % (10 * ((len(elab.inst_paths) + 9) // 10)))
     res.sample({"recipe_defs": len(recipe["defs"]), "elab_instances": len(elab.inst_paths), "depth": depth, "tag": tag})
 
+    # ---- streaming consumption, BEFORE this function holds any reference of the netlist: results are
+    # taken one at a time and dropped; every occurrence must still come exactly once
+    fns_ = {"hinst": sdn.get_hinstances, "hport": sdn.get_hports, "hpin": sdn.get_hpins,
+            "hcable": sdn.get_hcables, "hwire": sdn.get_hwires}
+    sroots = [[b.nl]] + [[l_] for l_ in b.nl.libraries] + [[b.nl, b.defs[recipe["top"]]]]
+    if len(b.defs) > 1:
+        sroots.append(rng.sample(b.defs, 2))
+    cabs_ = [c_ for d_ in b.defs for c_ in d_.cables if len(c_.wires) > 1]
+    sroots += [[c_] for c_ in cabs_[:2]]
+    gc.collect()
+    for coll in sroots:
+        for f in ("hinst", "hport", "hpin", "hcable", "hwire"):
+            rec = bool(rng.getrandbits(1))
+            try:
+                got = []
+                for hh in fns_[f](list(coll), recursive=rec):
+                    got.append(tuple(path_of(hh, ids)))
+                hh = None
+                lst = sorted(tuple(path_of(x, ids)) for x in fns_[f](list(coll), recursive=rec))
+            except Exception as e:  # noqa
+                got, lst = [("exc", exc_family(e))], None
+            res["evaluations"] += 1
+            res.dist("c11.streaming-before-any-reference-is-held")
+            res.dist("theorem_fragment:no-theorem/collection-of-roots:out:no-theorem")
+            if len(set(got)) != len(got) or sorted(got) != lst:
+                inp = dict({"recipe": recipe}, query={"f": f, "roots": [type(o).__name__ for o in coll], "rec": rec,
+                                                      "consumption": "streaming"})
+                res.spec_failure("get_%ss.streaming-consumption.duplicate-or-differs-from-list-answer" % f, inp,
+                                 "streamed %d (distinct %d), list answer %s" % (len(got), len(set(got)), None if lst is None else len(lst)))
     # ---- all roots: elements, then every reference returned from the netlist ----
     roots = elem_roots(b)
     href_roots = []
@@ -1021,22 +1051,37 @@ def check_c11(res, sess, recipe, rng, tier_scale, edits=None, tag="gen"):
                     if not isinstance(x_, _OPm) and x_.port is not None:
                         targeted.append((c_, w_, x_))
     rng.shuffle(targeted)
+    # single roots that reach one occurrence by several routes (library / definition roots with recursion,
+    # a cable whose wires lead to the same port): interesting for the streaming consumption below
+    for lib_ in b.nl.libraries:
+        colls += [[lib_], [lib_]]
+    for d_ in rng.sample(b.defs, min(3, len(b.defs))):
+        colls += [[d_], [d_]]
+        for c_ in list(d_.cables)[:2]:
+            colls.append([c_])
     by_item = {}
     for hh in href_roots:
         by_item.setdefault(id(hh.item), []).append(hh)
     for c_, w_, x_ in targeted[:4]:
         colls.append(rng.choice([[c_, x_.port], [w_, x_], [x_.port, c_], [x_, w_, c_]]))
+        # an instance reference (name-map route) together with a port / pin of the same occurrence (pin route)
+        occ_ = [hh for hh in href_roots if isinstance(hh.item, sdn.Instance) and hh.item.reference is c_.definition]
+        if occ_:
+            colls.append(rng.choice([[rng.choice(occ_), x_.port], [x_, rng.choice(occ_)], [b.nl, x_.port]]))
         hw_, hp_ = by_item.get(id(w_)), by_item.get(id(x_))
         if hw_ and hp_:
             colls.append([rng.choice(hw_), rng.choice(hp_)])
     for coll in colls:
-        if any(isinstance(o, sdn.Netlist) for o in coll) and len(coll) > 1:
-            coll = [o for o in coll if not isinstance(o, sdn.Netlist)]
         rjs = [root_json(o, ids, dpos) for o in coll]
         for f in ("hinst", "hport", "hpin", "hcable", "hwire"):
             rec = bool(rng.getrandbits(1))
-            if any((id(o), f, rec) not in single for o in coll):
-                continue      # e.g. get_hcables on pin-like roots (C12's), or a root that was sampled away
+            for o in coll:
+                if (id(o), f, rec) not in single:
+                    # e.g. get_hcables on pin-like roots (their single-root answer is C12's business): the
+                    # collection is then only compared with the implementation's own single-root answers
+                    si, _ = impl_query(sdn, f, o, rec, "I", ids)
+                    single[(id(o), f, rec)] = (si, None)
+            no_model = any(single[(id(o), f, rec)][1] is None for o in coll)
             if any(isinstance(single[(id(o), f, rec)][0], dict) for o in coll):
                 continue
             inp = dict(inp_base, query={"f": f, "roots": rjs, "rec": rec})
@@ -1048,7 +1093,18 @@ def check_c11(res, sess, recipe, rng, tier_scale, edits=None, tag="gen"):
             same_list = len(lst) == len(coll) and all(x is y for x, y in zip(lst, coll))
             r2, _h2 = impl_query(sdn, f, lst, rec, "I", ids)
             want_impl = sorted(set(tuple(x) for o in coll for x in single[(id(o), f, rec)][0]))
-            want_model = sorted(set(tuple(x) for o in coll for x in single[(id(o), f, rec)][1]))
+            want_model = None if no_model else sorted(set(tuple(x) for o in coll for x in single[(id(o), f, rec)][1]))
+            # the same roots as a one-shot generator, and the answer consumed one reference at a time
+            fnx = {"hinst": sdn.get_hinstances, "hport": sdn.get_hports, "hpin": sdn.get_hpins,
+                   "hcable": sdn.get_hcables, "hwire": sdn.get_hwires}[f]
+            try:
+                r3 = sorted(path_of(x, ids) for x in fnx((x for x in coll), recursive=rec))
+                r4 = []
+                for hh in fnx(list(coll), recursive=rec):
+                    r4.append(path_of(hh, ids))
+                hh = None
+            except Exception as e:  # noqa
+                r3 = r4 = {"exc": exc_family(e)}
             if isinstance(r1, dict) or isinstance(r2, dict):
                 res.spec_failure("get_%ss.collection.raises" % f, inp, repr((r1, r2))[:200])
                 continue
@@ -1063,7 +1119,13 @@ def check_c11(res, sess, recipe, rng, tier_scale, edits=None, tag="gen"):
             if r2 != r1:
                 res.spec_failure("get_%ss.collection.asked-again-with-the-same-list.differs" % f, inp,
                                  "first %d references, second %d; caller's list %s" % (len(r1), len(r2), "unchanged" if same_list else "was modified"))
-            if sorted(set(t1)) != want_model:
+            if r3 != r1:
+                res.spec_failure("get_%ss.roots-as-generator.differs-from-roots-as-list" % f, inp,
+                                 "list %d, generator %r" % (len(r1), len(r3) if isinstance(r3, list) else r3))
+            if not isinstance(r4, list) or len(set(map(tuple, r4))) != len(r4) or sorted(r4) != r1:
+                res.spec_failure("get_%ss.collection.streaming-consumption.differs" % f, inp,
+                                 "list %d, streamed %r" % (len(r1), len(r4) if isinstance(r4, list) else r4))
+            if want_model is not None and sorted(set(t1)) != want_model:
                 res.corr_mismatch("Spydr.Hier.%s (union over the roots) vs spydrnet.get_%ss(collection)" % (f, f), inp, r1,
                                   [list(x) for x in want_model])
 
@@ -1362,11 +1424,35 @@ def gen_pin_edit(rng, b):
         for q in all_pinrefs(r, di):
             cands.append((di, q, wires))
     if rng.random() < 0.25:
+        # move a WIRED child whose definition has wires of its own to another definition: its outer pins
+        # stay on the old definition's wires, and what lies below them would be a phantom
+        mv = []
+        for di, D in enumerate(r["defs"]):
+            for ki, c in enumerate(D["children"]):
+                ref = c["ref"]
+                if ref is None or not r["defs"][ref]["cables"]:
+                    continue
+                obj = b.h_children[di][ki]
+                if obj.parent is b.defs[di] and any(pp.wire is not None for pp in obj.pins):
+                    mv += [(di, ki, dj) for dj in range(ref + 1, len(r["defs"])) if dj != di]
+        if mv:
+            return ["mv_child"] + list(rng.choice(mv))
+    if rng.random() < 0.25:
         # a structural edit that leaves pins behind on wires: remove a child / a port
         di = rng.randrange(len(r["defs"]))
         D = r["defs"][di]
         if rng.random() < 0.3 and di != r["top"]:
             return ["rm_def", di]      # instantiated definition leaves its library; the net still runs through it
+        if rng.random() < 0.45:
+            # MOVE a child / a port to another definition: its pins stay behind on the old definition's wires
+            dj = rng.randrange(len(r["defs"]))
+            if D["children"] and (rng.random() < 0.7 or not D["ports"]):
+                ki = rng.randrange(len(D["children"]))
+                ref = D["children"][ki]["ref"]
+                if dj != di and (ref is None or ref < dj):
+                    return ["mv_child", di, ki, dj]
+            elif D["ports"] and dj != di:
+                return ["mv_port", di, rng.randrange(len(D["ports"])), dj]
         if D["children"] and (rng.random() < 0.6 or not D["ports"]):
             return ["rm_child", di, rng.randrange(len(D["children"]))]
         if D["ports"]:
@@ -1408,6 +1494,20 @@ def apply_pin_edit(b, op):
             dd = b.defs[op[1]]
             dd.library.remove_definition(dd)
             return "ok"
+        if op[0] == "mv_child":
+            k = b.h_children[op[1]][op[2]]
+            tgt = b.defs[op[3]]
+            rr = k.reference
+            if rr is not None and (rr is tgt or b.defs.index(rr) >= op[3]):
+                return "skipped-would-cycle"
+            k.parent.remove_child(k)
+            tgt.add_child(k)
+            return "ok"
+        if op[0] == "mv_port":
+            x = b.h_ports[op[1]][op[2]]
+            x.definition.remove_port(x)
+            b.defs[op[3]].add_port(x)
+            return "ok"
         pin = pin_obj(b, op[1], op[2])
         if op[0] in ("disc", "move") and pin.wire is not None:
             pin.wire.disconnect_pin(pin)
@@ -1447,7 +1547,7 @@ def _c12_pass(res, sess, b, ids, recipe, rng, tier_scale, tag, only, done):
     import spydrnet as sdn
     design, dpos = dump(b.nl, ids)
     st = sess.load(design)
-    structural = any(op[0] in ("rm_child", "rm_port") for op in done)
+    structural = any(op[0] in ("rm_child", "rm_port", "mv_child", "mv_port") for op in done)
     if not (st["wf"] and (st["wfnet"] or structural) and st["sorted"]):
         res["obligations"].append(("hier: dumped design satisfies WF, WFNet and Sorted", False,
                                    json.dumps({"recipe": recipe, "pin_edits": done})[:1500]))
@@ -1549,12 +1649,20 @@ def _c12_pass(res, sess, b, ids, recipe, rng, tier_scale, tag, only, done):
     count_reach(res, sess, queries)
     inp_base = {"recipe": recipe, "pin_edits": [list(x) for x in done]} if done else {"recipe": recipe}
     from spydrnet.util.hierarchical_reference import HRef as _HRef
+    last_hw = {}
     for (kind, h, rj, occ, f, sel), q, a in zip(meta, queries, answers):
         if only and (f, sel) != only:
             continue
         impl, _ = impl_query(sdn, f, h, False, sel, ids)
         model = sorted(a["v"])
         inp = dict(inp_base, query={"f": f, "root": rj, "sel": sel, "start": kind})
+        if f == "hwire":
+            last_hw[(id(h), sel)] = impl
+        elif f == "hcable" and isinstance(impl, list) and not (kind == "hcable" and sel == "I"):
+            hw_ = last_hw.get((id(h), sel))
+            if isinstance(hw_, list) and sorted(set(tuple(x[1:]) for x in hw_)) != sorted(set(map(tuple, impl))):
+                res.spec_failure("get_hcables.%s.from-%s.not-the-cables-of-get_hwires" % (SELS[sel], kind), inp,
+                                 "cables of get_hwires: %d, get_hcables: %d" % (len(set(tuple(x[1:]) for x in hw_)), len(impl)))
         res["evaluations"] += 1
         res.dist("c12.%s.%s.from-%s%s" % (f, SELS[sel], kind, "" if rj["k"] == "href" else "-element"))
         if not a["fin"]:
@@ -1610,9 +1718,17 @@ def _c12_pass(res, sess, b, ids, recipe, rng, tier_scale, tag, only, done):
                 sig = "get_%ss.%s.from-%s.%s" % (f, SELS[sel], kind,
                                                 "omission" if miss and not extra else ("extra" if extra and not miss else "differs"))
                 # --- open finding: pins of a removed child / port left on a wire are followed ---
-                if nets.dangling and extra and not miss and any(x not in elab.all_valid for x in extra):
+                moved_any = any(op[0] in ("mv_child", "mv_port") for op in done)
+                if (nets.dangling or moved_any) and extra and not miss and any(x not in elab.all_valid for x in extra):
                     sig = SIG_DANGLING
                     known_sig = sig
+                    cut = 2 if f in ("hwire", "hpin") else 1
+                    moved = any(op[0] in ("mv_child", "mv_port") for op in done)
+                    if moved:
+                        # open finding: the moved element's own outer-wire lookup (both get_hwires and get_hcables
+                        # share it; a deviation of get_hcables alone is caught by the image check below)
+                        sig = SIG_MOVED
+                        known_sig = sig
                 # --- classification of the two (fixed) findings of the BOTH/ALL branch (exact failure classes) ---
                 if sel == "A" and kind in ("hwire", "hcable") and miss and not extra:
                     # get_hwires: the BOTH/ALL branch drops every outer pin of the start wire, so the closure
@@ -1638,9 +1754,13 @@ def _c12_pass(res, sess, b, ids, recipe, rng, tier_scale, tag, only, done):
                         known_sig = sig
                 res.spec_failure(sig, inp, "missing %r extra %r" % (miss[:3], extra[:3]))
         if impl != model:
-            if known_sig is None and nets.dangling and not isinstance(impl, dict) and \
+            if known_sig is None and (nets.dangling or any(op[0] in ("mv_child", "mv_port") for op in done)) \
+                    and not isinstance(impl, dict) and \
                     set(map(tuple, model)) <= set(map(tuple, impl)) and any(tuple(x) not in elab.all_valid for x in impl):
                 known_sig = SIG_DANGLING
+                cut = 2 if f in ("hwire", "hpin") else 1
+                if any(op[0] in ("mv_child", "mv_port") for op in done):
+                    known_sig = SIG_MOVED
             if known_sig is None and sel == "B" and not isinstance(impl, dict):
                 # BOTH is outside the property's statement, but it runs through the same two code paths:
                 # the shared BOTH/ALL branch for a wire start (outer pins are dropped) and, in get_hcables,
@@ -1660,6 +1780,26 @@ def _c12_pass(res, sess, b, ids, recipe, rng, tier_scale, tag, only, done):
                     known_sig = SIG_ALL_CABLE if (has_outer and not sm <= si) else SIG_NARROW
             res.corr_mismatch("Spydr.Hier.%s(sel=%s) vs spydrnet.get_%ss" % (f, SELS[sel], f), inp, impl, model,
                               signature=known_sig)
+    # roots handed over as a one-shot generator, and the result of one query fed directly into the next
+    cwork = [w_ for w_ in work if w_[2]["k"] == "href" and w_[0] in ("hpin", "hwire")]
+    rng.shuffle(cwork)
+    for kind, h, rj, occ in cwork[: (tier_scale[2] if len(tier_scale) > 2 else 6)]:
+        try:
+            ws = list(sdn.get_hwires(h, selection="ALL"))
+            for f, fn in (("hpin", sdn.get_hpins), ("hport", sdn.get_hports), ("hcable", sdn.get_hcables),
+                          ("hwire", sdn.get_hwires), ("hinst", sdn.get_hinstances)):
+                a_list = sorted(path_of(x, ids) for x in fn(list(ws)))
+                a_gen = sorted(path_of(x, ids) for x in fn(x for x in ws))
+                a_chain = sorted(path_of(x, ids) for x in fn(sdn.get_hwires(h, selection="ALL")))
+                res["evaluations"] += 1
+                res.dist("c12.chained-query.%s" % f)
+                res.dist("theorem_fragment:no-theorem/collection-of-roots:out:no-theorem")
+                if a_gen != a_list or a_chain != a_list:
+                    inp = dict(inp_base, query={"f": f, "roots": "get_hwires(%r, ALL) as generator" % (rj["h"],), "start": kind})
+                    res.spec_failure("get_%ss.roots-as-generator.differs-from-roots-as-list" % f, inp,
+                                     "list %d, generator %d, chained %d" % (len(a_list), len(a_gen), len(a_chain)))
+        except Exception as e:  # noqa
+            res.spec_failure("get_h.chained-query.raises-" + exc_family(e), dict(inp_base, start=rj), "")
     # filter=: the callback only selects among the answer, it never changes what is reached
     fwork = [w_ for w_ in work if w_[2]["k"] == "href"]
     rng.shuffle(fwork)
